@@ -114,6 +114,7 @@ async fn run_case(c: &CaseCfg, maxconn: usize, ops: &[String], out: &mut dyn Wri
     let _ = std::fs::remove_dir_all(&dir);
     std::fs::create_dir_all(&dir).unwrap();
     bitcask::verif::set_clock(1);
+    crate::store::mark(&format!("case {}", c.name));
     let mut srv = match start(c, maxconn, &dir).await {
         Ok(s) => {
             writeln!(out, "start ok").unwrap();
@@ -582,6 +583,7 @@ async fn run_case(c: &CaseCfg, maxconn: usize, ops: &[String], out: &mut dyn Wri
         };
         writeln!(out, "{}", res).unwrap();
     }
+    crate::store::mark("end");
     conns.clear();
     apis.clear();
     if let Some(tx) = srv.shutdown_tx.take() {
